@@ -320,6 +320,78 @@ def make_graph(src, data):
     return graph_case
 
 
+# ------------------------------------------------------------------------------------------- abrupt exits inside value contexts
+EXIT_BODIES = {
+    "forin-return": "for (var k in O) { if (k === 'b') { return; } }",
+    "forin-return-value": "for (var k in O) { if (k === 'b') { return 7; } }",
+    "forin-return-object": "for (var k in O) { if (k === 'b') { return {r: k}; } }",
+    "forof-return": "for (var v of A) { if (v === 2) { return; } }",
+    "forof-return-value": "for (var v of A) { if (v === 2) { return v; } }",
+    "nested-loops-return": "for (var k in O) { for (var v of A) { if (v === 2) { return k; } } }",
+    "forin-break": "for (var k in O) { if (k === 'b') { break; } } return 5;",
+    "forof-continue": "for (var v of A) { if (v === 2) { continue; } this.last = v; }",
+    "try-finally-return": "for (var k in O) { try { return 1; } finally { this.f = k; } }",
+    "caught-throw": "for (var v of A) { try { null.x; } catch (e) { return e.name; } }",
+    "switch-return": "for (var k in O) { switch (k) { case 'b': return 3; default: this.d = k; } }",
+    "falls-off": "for (var k in O) { this[k] = 1; }",
+}
+EXIT_CALLS = {
+    "new": "new F(O)", "call": "F(O)", "method": "H.m(O)", "new-method": "new H.m(O)", "call-call": "F.call(T, O)", "apply": "F.apply(T, [O])",
+    "bound-new": "new (F.bind(null))(O)", "callback": "[1].map(function () { return new F(O); })[0]", "getter": "G.g",
+}
+EXIT_CONTEXTS = {
+    "array": "[10, %s, 30]", "args": "id(10, %s, 30)", "object": "({a: 10, b: %s, c: 30})", "binary": "[10 + (typeof %s).length, 30]",
+    "nested-array": "[[10, [%s]], 30]", "sequence": "(10, %s, 30)", "conditional": "[10, true ? %s : 0, 30]", "new-args": "new Box(10, %s, 30)",
+}
+
+
+def exit_program(body, call, context):
+    return ("var O = {a: 1, b: 2, c: 3}, A = [1, 2, 3], T = {t: 1};\n"
+            "function F(o) { %s }\n"
+            "var H = {m: F}; var G = {get g() { return new F(O); }};\n"
+            "function id(x, y, z) { return [x, y, z]; } function Box(x, y, z) { this.x = x; this.y = y; this.z = z; }\n"
+            "var R = %s; log('r', R); R;" % (body, context % call))
+
+
+def make_exits(body_name, call_name):
+    def exits_case(c):
+        ctx_name = pick(c, sorted(EXIT_CONTEXTS))
+        with NoTracing():
+            from .. import diffrun
+            src = exit_program(EXIT_BODIES[body_name], EXIT_CALLS[call_name], EXIT_CONTEXTS[ctx_name])
+            r = diffrun.compare(src, {}, max_steps=50000)
+            if r is not True:
+                return "%s / %s / %s: %s" % (body_name, call_name, ctx_name, r)
+            log, out, ctx = diffrun.run_engine(src, {}, max_steps=50000)
+            cover("judged")
+            res = []
+            for entry in log:
+                for v in entry:
+                    p = deep_problem(v)
+                    if p is not None:
+                        return "%s / %s / %s: the logged value holds a %s" % (body_name, call_name, ctx_name, p)
+            ctx._globals.pop("log", None)
+            ctx._globals.pop("pr", None)
+            gp = graph_problem(ctx)
+            if gp is not None:
+                return "%s / %s / %s: %s holds a %s" % (body_name, call_name, ctx_name, gp[0], gp[1])
+        return True
+    exits_case.__annotations__ = {"c": int, "return": bool}
+    return exits_case
+
+
+def deep_problem(v, depth=0):
+    """domain_problem through snapshot tuples / engine containers."""
+    import microjs.values as V
+    if isinstance(v, tuple):
+        for x in v[1:]:
+            p = deep_problem(x, depth + 1)
+            if p is not None:
+                return p
+        return None
+    return domain_problem(v)
+
+
 # ------------------------------------------------------------------------------------------- host functions run only when called
 NO_CALL_FORMS = [
     "var x = H;", "var o = {h: H}; o.h;", "[H, H].length;", "typeof H;", "H.name;", "H.length;", "'' + H;", "H + 1;", "H == 1;", "H === H;",
@@ -402,6 +474,13 @@ def harnesses():
                           require=("judged",), tier="quick" if (n.startswith("snip") or hash(n) % 3 == 0 or True) else "thorough",
                           bounds=["program %s with loop bound and selectors in 0..3: afterwards every value reachable from the globals, "
                                   "closure cells and the result, and every argument a host function received, is a JavaScript value" % n]))
+    for bn in EXIT_BODIES:
+        for cn in EXIT_CALLS:
+            hs.append(Harness(id="C03.exits.%s.%s" % (bn, cn), fn=make_exits(bn, cn), group="exits", functions=FNS, per_path=30, budget=300,
+                              require=("judged",),
+                              bounds=["a function leaving by %s, invoked as %s, inside each of %d value contexts (array/object literal, "
+                                      "arguments, operands): result and log equal the definitional interpreter's, nothing is left on the "
+                                      "operand stack, and every reachable value is a JavaScript value" % (bn, EXIT_CALLS[cn], len(EXIT_CONTEXTS))]))
     hs.append(Harness(id="C03.host.nocall", fn=nocall_case, group="host", functions=FNS, per_path=30, budget=300, require=("judged",),
                       bounds=["%d script forms that hold, convert, compare, enumerate and pass an exposed host function without calling it: "
                               "its call counter stays 0" % len(NO_CALL_FORMS)]))
